@@ -549,4 +549,36 @@ theorem log_evict (klen maxB maxLine size : BitVec 64) (hk : klen.toNat < 2^61) 
   exact ⟨e, e⟩
 theorem log_kinds : Gen.LogPrintf.condKinds = ["if", "if-exit", "if", "for"] := by decide
 
+/-! ### C01 / C12: the UDP listener hands over only datagrams of exactly 80 bytes read -/
+
+theorem udp_length_guard (n : BitVec 64) : Gen.ListenUDP.c0 n = decide (n.toNat ≠ 80) := by
+  unfold Gen.ListenUDP.c0
+  by_cases h : n = 80#64
+  · subst h; decide
+  · have : n.toNat ≠ 80 := fun hn => h (BitVec.eq_of_toNat_eq (by simpa using hn))
+    simp [h, this]
+theorem udp_kinds : Gen.ListenUDP.condKinds = ["if-exit"] := by decide
+
+/-! ### C10 / C15 / C17: locations must fit the one-byte length field; ban rule of the server list -/
+
+theorem migration_location_bound (n : BitVec 64) (h : n.toNat < 2^63) :
+    Gen.ValidateMigration.c0 n = decide (n.toNat > 255) := by
+  unfold Gen.ValidateMigration.c0
+  have := n.isLt
+  simp only [BitVec.slt, BitVec.toInt_eq_toNat_cond]
+  simp
+  omega
+theorem server_location_bound (n : BitVec 64) (nb ob : Bool) (h : n.toNat < 2^63) :
+    Gen.AuthServersPOST.c0 n nb ob = decide (n.toNat > 255) := by
+  unfold Gen.AuthServersPOST.c0
+  have := n.isLt
+  simp only [BitVec.slt, BitVec.toInt_eq_toNat_cond]
+  simp
+  omega
+/-- An entry for a known key is ignored if the known entry is already banned, or if the new one does not ban. -/
+theorem server_ban_rule (n : BitVec 64) (nb ob : Bool) :
+    Gen.AuthServersPOST.c1 n nb ob = ob ∧ Gen.AuthServersPOST.c2 n nb ob = !nb := ⟨rfl, rfl⟩
+theorem authServersPOST_kinds : Gen.AuthServersPOST.condKinds = ["if-exit", "if-exit", "if-exit"] := by decide
+theorem validateMigration_kinds : Gen.ValidateMigration.condKinds = ["if-exit"] := by decide
+
 end Gca.Tie
